@@ -29,20 +29,31 @@ const (
 // either no time has passed since the previous reading, or a long time (an hour) has. Code that
 // measures how long something took therefore meets both "instantly" and "far too long" (outside an
 // execution the real clock is used).
+// The clock never stands still for ever, though: on the default answer the k-th reading of an execution
+// is 2^k ns later than the one before (an hour from the 42nd on), and time.Sleep(d) advances it by d - so a
+// loop that polls the clock (`for time.Since(start) < d { ... }`) ends after a few dozen rounds on the
+// default path instead of looking like a livelock. Every monotone sequence of readings is a legal
+// behaviour of a real clock under arbitrary scheduling delays.
 var elapsed time.Duration
+var readings int
 var epoch = time.Unix(1_000_000_000, 0)
 
 // ResetClock is called by the harness-independent reset hook before every execution.
-func init() { vrt.RegisterReset("verif/vtime", -1, func() { elapsed = 0 }) }
+func init() { vrt.RegisterReset("verif/vtime", -1, func() { elapsed, readings = 0, 0 }) }
 
 //go:norace
 func Now() Time {
 	if !vrt.Running() {
 		return time.Now()
 	}
-	if vrt.Choose(2) == 1 {
+	if vrt.Choose(2) == 1 || readings >= 42 {
 		elapsed += time.Hour
+	} else {
+		elapsed += time.Duration(1) << uint(readings)
 	}
+	readings++
+	// the reading is an observation of shared state: it is part of the reading thread's history
+	vrt.Observed(uint64(elapsed))
 	return epoch.Add(elapsed)
 }
 func Since(t Time) Duration { return Now().Sub(t) }
@@ -138,6 +149,9 @@ func Sleep(d Duration) {
 		return
 	}
 	vrt.SleepPoint()
+	if d > 0 {
+		elapsed += d
+	}
 }
 
 //go:norace
@@ -186,6 +200,7 @@ func NewTicker(d Duration) *Ticker {
 	t := &Ticker{c: make(chan Time, 1)}
 	t.C = t.c
 	id := *(*unsafe.Pointer)(unsafe.Pointer(&t.c))
+	vrt.MarkTimeChan(id)
 	vrt.GoDaemon("ticker", func() {
 		for {
 			vrt.PointOp(&vrt.Op{Kind: "ticker.tick", Obj: id, Write: true, Ready: t.canTick})
